@@ -379,7 +379,8 @@ func init() {
 		Procs:        func(string) int { return 16 },
 		SingleThread: true,
 		Spaces: func(c *sup.Ctx) []*sup.Space {
-			sp := []*sup.Space{c04S1(c), c04S2(c, "S2-check-logic", 1, 1, false), c04S3(c), c04S4(c), c04S5(), c04S6(c), c04S7()}
+			// small spaces first: a deadline then cuts only into the large products
+			sp := []*sup.Space{c04S5(), c04S6(c), c04S7(), c04S1(c), c04S4(c), c04S2(c, "S2-check-logic", 1, 1, false), c04S3(c)}
 			if c.Thorough() {
 				sp = append(sp, c04S2(c, "S2-check-logic-authorizer-authority-pairs", 2, 1, false), c04S2(c, "S2-check-logic-block-pairs", 1, 2, false))
 			} else {
